@@ -40,7 +40,9 @@ META = {
                   'sinks / static routes is replayed.  Outside the model, rotated by the harness on every replay: truthiness of the '
                   'resource object (plain, __len__ 0, __bool__ False, empty / non-empty dict and list subclasses), non-callable '
                   'decoy attributes named like responders (truthy and falsy, class and instance, with and without suffix), '
-                  'sink prefixes as strings / precompiled patterns.  What a picked static route does with the rest of the path is '
+                  'the form of every sink prefix (string, precompiled, precompiled from a VERBOSE spelling, with DOTALL / ASCII, '
+                  'IGNORECASE as a flag or inline); IGNORECASE itself is part of the model (flags token) with paths in the other '
+                  'case in every request universe.  What a picked static route does with the rest of the path is '
                   'modelled only as far as needed to recognise it (C16 owns it); OPTIONS answered by a static route is not '
                   'distinguishable from other 200 + Allow: GET answers.  Trusted: TLC, engine/drivers.py, CPython re/os.',
 }
@@ -70,11 +72,38 @@ def template_str(tmpl):
     return '/' + '/'.join(('{%s}' % text(s['s'])) if s['k'] == 'var' else text(s['s']) for s in tmpl)
 
 
-def sink_regex(pat):
-    """spec-level sink tokens (spec/Dispatch.tla, SinkMatch) -> the regular expression handed to add_sink"""
+FORMS = 4
+
+
+def sink_flags(pat):
+    """the flag letters of a spec-level sink pattern (first token 'flags'), '' if none"""
+    return text(pat[0]['s']) if pat and pat[0]['k'] == 'flags' else ''
+
+
+def sink_prefix(pat, form=None):
+    """The prefix object handed to add_sink for a spec-level pattern.  The documented API takes a pattern string or a
+    precompiled expression; the matcher of a precompiled expression is the expression WITH its flags.  `form` rotates
+    over the ways of writing the SAME matcher (None = canonical):
+      without flags:   0 string   1 re.compile(s)   2 re.compile(verbose spelling, re.VERBOSE)   3 re.compile(s, re.DOTALL)
+      IGNORECASE:      0 re.compile(s, re.I)   1 string with inline (?i)   2 re.compile(verbose spelling, re.I | re.X)
+                       3 re.compile(s, re.I | re.ASCII)"""
+    parts = sink_regex(pat, parts=True)
+    rx = ''.join(parts)
+    verbose = '\n  ' + '   # piece\n  '.join(parts) + '   # end\n'      # the pieces contain no white space and no '#'
+    ci = 'i' in sink_flags(pat)
+    form = 0 if form is None else form % FORMS
+    if not ci:
+        return (rx, re.compile(rx), re.compile(verbose, re.VERBOSE), re.compile(rx, re.DOTALL))[form]
+    return (re.compile(rx, re.I), '(?i)' + rx, re.compile(verbose, re.I | re.X), re.compile(rx, re.I | re.ASCII))[form]
+
+
+def sink_regex(pat, parts=False):
+    """spec-level sink tokens (spec/Dispatch.tla, SinkMatch) -> the regular expression (flags not included)"""
     out = []
     for tok in pat:
         k, t = tok['k'], text(tok['s'])
+        if k == 'flags':
+            continue
         if k == 'lit':
             out.append(re.escape(t))
         elif k == 'digits':
@@ -97,7 +126,7 @@ def sink_regex(pat):
                                               r'\d+' if k.endswith('dig') else '[^/]+'))
         else:
             raise MachineryError('unknown sink token %r' % (tok,))
-    return ''.join(out)
+    return out if parts else ''.join(out)
 
 
 # ---------------------------------------------------------------------------------------------
@@ -237,10 +266,10 @@ class Built:
         self.log = []
         self.dirs = dirs
         self.act = act
-        # `compiled` is the harness variant (None = canonical): variant % 3 = how sink prefixes are handed to add_sink
-        # (0 strings, 1 precompiled, 2 every other one), variant // 3 = resource flavor (see make_resource)
-        self.compiled = (compiled or 0) % 3
-        self.flavor = None if compiled is None else compiled // 3
+        # `compiled` is the harness variant (None = canonical): variant % FORMS (+ the registration's id) = the form in
+        # which a sink prefix is handed to add_sink (see sink_prefix), variant // FORMS = resource flavor (make_resource)
+        self.compiled = None if compiled is None else compiled % FORMS
+        self.flavor = None if compiled is None else compiled // FORMS
         self.statics = []          # (id, prefix text)
         self.app = (falcon.asgi.App if asgi else falcon.App)(sink_before_static_route=bool(sbs), **app_kw)
 
@@ -252,8 +281,8 @@ class Built:
                 kw = {'suffix': c['sfx']} if c['sfx'] else {}
                 self.app.add_route(template_str(c['tmpl']), res, **kw)
             elif c['op'] == 'sink':
-                rx = sink_regex(c['pat'])
-                self.app.add_sink(make_sink(c['id'], self.asgi, self.log, self.act), re.compile(rx) if (self.compiled == 1 or (self.compiled == 2 and c['id'] % 2 == 0)) else rx)
+                form = None if self.compiled is None else self.compiled + c['id']      # rotates per registration
+                self.app.add_sink(make_sink(c['id'], self.asgi, self.log, self.act), sink_prefix(c['pat'], form))
             elif c['op'] == 'static':
                 kw = {'fallback_filename': '__fallback'} if c['fb'] else {}
                 self.app.add_static_route(text(c['prefix']) + ('/' if c.get('sl') else ''), self.dirs.dir(c['id']), **kw)
@@ -383,7 +412,7 @@ def replay_config(ctx, cfg, stacks, dirs, sample=None):
     n = 0
     hd = digest(h)
     for asgi in stacks:
-        compiled = (int(hd, 16) + asgi) % (3 * FLAVORS)
+        compiled = (int(hd, 16) + asgi) % (FORMS * FLAVORS)
         b = Built(asgi, sbs, dirs, compiled=compiled)
         bad = False
         for c in h:
@@ -425,7 +454,8 @@ def describe(h):
                                                       ', suffix=%r' % c['sfx'] if c['sfx'] else '',
                                                       '' if c['ok'] else ' [rejected]'))
         elif c['op'] == 'sink':
-            out.append('add_sink(sink%d, %r)' % (c['id'], sink_regex(c['pat'])))
+            out.append('add_sink(sink%d, %r%s)' % (c['id'], sink_regex(c['pat']),
+                                                  ', flags=%r' % sink_flags(c['pat']) if sink_flags(c['pat']) else ''))
         elif c['op'] == 'static':
             out.append('add_static_route(%r, dir%d%s)' % (text(c['prefix']) + ('/' if c.get('sl') else ''), c['id'],
                                                           ', fallback' if c['fb'] else ''))
@@ -608,6 +638,8 @@ def gen_scenario(rng):
             p += '/'
         elif m < 0.28:
             p = p + rng.choice(('1', 'b', '9'))
+        if rng.random() < 0.12:
+            p = rng.choice((p.upper(), p.swapcase(), p.title()))      # the other case
         return p or '/'
 
     def gen_method():
@@ -626,8 +658,10 @@ def gen_scenario(rng):
         pat = [{'k': 'lit', 's': cps(base)}]
         if rng.random() < 0.4:
             pat += [{'k': 'lit', 's': cps('/')}, {'k': rng.choice(('digits', 'seg')), 's': cps('g1')}]
+        if rng.random() < 0.4:
+            pat = [{'k': 'flags', 's': cps('i')}] + pat
         between = rng.choice(('/', base[:2], base))
-        probes = [base + '/1', base + '/x', base, base + '/22/a']
+        probes = [base + '/1', base + '/x', base, base + '/22/a', base.upper() + '/1', base.upper() + '/X']
         for k, pt in enumerate((pat, [{'k': 'lit', 's': cps(between)}], pat)):
             n_calls += 1
             steps.append(EV('sink', id=n_calls, pat=pt))
@@ -719,6 +753,12 @@ def gen_scenario(rng):
                 pat.append({'k': 'optlit', 's': cps(opt)})
                 sinkpaths.append(example + opt)
                 sinkpaths.append(example + opt + '/a')
+            if rng.random() < 0.3:
+                # a precompiled expression with IGNORECASE: paths in the other case match thanks to the flag only
+                pat = [{'k': 'flags', 's': cps('i')}] + pat
+                sinkpaths.append(example.upper())
+                sinkpaths.append(example.upper() + rng.choice(('', '/A', '/a')))
+                sinkpaths.append(example.swapcase())
             if sinkpats and rng.random() < 0.3:
                 pat, example = rng.choice(sinkpats)        # an equal prefix registered again: the new sink is the newest
             sinkpats.append((pat, example))
@@ -776,7 +816,7 @@ def leg_b(ctx, dirs):
     for i in range(nsc):
         sc = gen_scenario(ctx.rng)
         for asgi in (False, True):
-            tr = run_scenario(sc, asgi, dirs, compiled=(i + asgi) % (3 * FLAVORS))
+            tr = run_scenario(sc, asgi, dirs, compiled=(i + asgi) % (FORMS * FLAVORS))
             kinds = set()
             for e in tr['ev']:
                 if e['op'] != 'req':
@@ -800,7 +840,7 @@ def leg_b(ctx, dirs):
             continue
         clause, at = v.split('@')
         ev = tr['ev'][int(at) - 1] if 0 < int(at) <= len(tr['ev']) else None
-        case = {'asgi': asgi, 'sbs': tr['sbs'], 'compiled': (i + asgi) % (3 * FLAVORS), 'trace': {'sbs': tr['sbs'], 'ev': tr['ev'][:int(at)]}}
+        case = {'asgi': asgi, 'sbs': tr['sbs'], 'compiled': (i + asgi) % (FORMS * FLAVORS), 'trace': {'sbs': tr['sbs'], 'ev': tr['ev'][:int(at)]}}
         what = 'trace of a random %s app rejected by DispatchTrace at event %s: %s %s observed %r %s' % (
             'ASGI' if asgi else 'WSGI', at, ev and ev['m'], ev and text(ev['p']), ev and ev['obs'],
             ev.get('problem', '') if ev else '')
